@@ -40,7 +40,7 @@ func plansFor(prop string, thorough bool) ([]Plan, int) {
 			{Name: "val", Const: "val", Kinds: []string{"vote", "seen", "checkin"}, Depth: d(5, 7),
 				SimNum: d(60, 1500), SimDepth: d(40, 60), MaxBeh: d(2500, 40000)},
 			{Name: "val2-deep", Const: "val2", Kinds: []string{"vote", "seen", "checkin"}, Depth: d(8, 10), MaxBeh: d(0, 0)},
-			{Name: "val1-refused", Const: "val1", Kinds: []string{"seen", "checkin", "badcheckin", "vote", "badvote"}, Depth: d(7, 9), MaxBeh: d(0, 0)},
+			{Name: "val1-refused", Const: "val1", Kinds: []string{"seen", "checkin", "badcheckin", "vote", "badvote"}, Depth: d(6, 8), MaxBeh: d(0, 0)},
 			{Name: "val6", Const: "val6", Kinds: []string{"seen", "checkin"}, Depth: d(4, 7), SimNum: d(150, 2000), SimDepth: d(40, 60), MaxBeh: d(1500, 30000)},
 		}, 1
 	case "C10":
